@@ -47,6 +47,7 @@ var lifeSQL = map[string]string{
 	"boom_where":    "SELECT id FROM stream WHERE vboom(v) > -5",
 	"boom_count":    "SELECT count(*) AS c, sum(vboom(v)) AS s FROM stream GROUP BY CountingWindow(2)",
 	"boom_global":   "SELECT g, count(*) AS c, sum(vboom(v)) AS s FROM stream GROUP BY g, GLOBAL WINDOW TRIGGER WHEN count(*) >= 2",
+	"boom_agg":      "SELECT count(*) AS c, vboomsum(v) AS s FROM stream GROUP BY CountingWindow(2)",
 	"boom_analytic": "SELECT id, lag(vboom(v)) AS p FROM stream",
 	"boom_cep":      "SELECT * FROM stream MATCH_RECOGNIZE (ORDER BY ts MEASURES COUNT(*) AS n, LAST(id) AS li PATTERN (A A) DEFINE A AS vboom(v) > -5)",
 	"late":          "SELECT g, count(*) AS c FROM stream GROUP BY g, TumblingWindow('1s') WITH (TIMESTAMP='ts', TIMEUNIT='ms', MAXOUTOFORDERNESS='200ms', ALLOWEDLATENESS='2s', IDLETIMEOUT='50ms')",
@@ -405,7 +406,7 @@ func RunLife(sc LifeScenario) (evs []Ev, inconclusive string) {
 			time.Sleep(2 * time.Millisecond)
 		}
 		time.Sleep(150 * time.Millisecond)
-		want := map[string]int64{"boom_direct": 14, "boom_where": 14, "boom_count": 6, "boom_global": 4, "boom_analytic": 14, "boom_cep": 3}[sc.Kind]
+		want := map[string]int64{"boom_direct": 14, "boom_where": 14, "boom_count": 6, "boom_agg": 6, "boom_global": 4, "boom_analytic": 14, "boom_cep": 3}[sc.Kind]
 		log(Ev{"e": "rowpanic", "q": atomic.AddInt64(&seq, 1), "got": atomic.LoadInt64(&sinkCalls) / 2, "want": want}) // two sinks (s1, a1) see every result
 		stop(1)
 	case "afterstop":
